@@ -78,11 +78,18 @@ def ev(env, t, vs):
                 "gt": lambda: a > b}[op]()
     if op == "eq_i":
         return ev(env, t[1], vs) == t[2]
+    if op in CMP_I:
+        x, k = ev(env, t[1], vs), t[2]
+        return {"ne_i": lambda: x != k, "lt_i": lambda: x < k, "le_i": lambda: x <= k, "gt_i": lambda: x > k,
+                "ge_i": lambda: x >= k, "req_i": lambda: k == x, "rlt_i": lambda: k < x}[op]()
     if op == "bad_add_i":  # FQP + int: both sides must raise the same exception class
         return ev(env, t[1], vs) + t[2]
     if op == "bad_mix":
         return ev(env, t[1], vs) * "x"
     raise HarnessError(f"bad node {op}")
+
+
+CMP_I = ("ne_i", "lt_i", "le_i", "gt_i", "ge_i", "req_i", "rlt_i")
 
 
 def depth(t):
@@ -142,7 +149,7 @@ def o_tree(ctx, case):
         ctx.label("node:pow>=745bits")
     if ops & set(INT_FQ):
         ctx.label("node:int_mix")
-    if ops & {"eq", "ne", "lt", "le", "gt", "eq_i"}:
+    if ops & ({"eq", "ne", "lt", "le", "gt", "eq_i"} | set(CMP_I)):
         ctx.label("cmp")
     if o_ref[0] == "raise":
         ctx.label("both_raise:" + o_ref[1])
@@ -229,6 +236,11 @@ def t_small_exh(ctx, p, mc):
             for op2 in BIN:
                 cmp([op2, [op1, ["var", 0], ["var", 1]], ["var", 1]], [a, b])
                 cmp([op2, ["var", 0], [op1, ["var", 0], ["var", 1]]], [a, b])
+        if pr.ref.is_fq and b == els[0]:
+            # comparisons with Python ints on both sides of [0, p): an int is compared as the integer it is
+            for k in range(-p - 1, 2 * p + 2):
+                for op in ("eq_i",) + CMP_I:
+                    cmp([op, ["var", 0], k], [a])
         if pr.ref.is_fq:
             for op in ("eq", "ne", "lt"):
                 ctx.ev()
@@ -309,7 +321,10 @@ def t_trees(ctx, p, mc, real, kind, shard, n, big_budget):
         lambda t: cap_big_pows(t, big_budget)[0])
     root = tree if not is_fq else st.one_of(
         tree, tree, st.tuples(st.sampled_from(["eq", "ne", "lt", "le", "gt"]), tree, tree).map(list),
-        st.tuples(st.just("eq_i"), tree, st.integers(0, p - 1)).map(list))
+        st.tuples(st.just("eq_i"), tree, st.integers(0, p - 1)).map(list),
+        st.tuples(st.sampled_from(("eq_i",) + CMP_I), tree,
+                  st.one_of(st.integers(-p - 2, 2 * p + 2), st.sampled_from([p, p + 1, -1, 2 * p, p * p, -p]),
+                            st.integers(-(1 << 400), 1 << 400))).map(list))
     strat = st.fixed_dictionaries({"tree": root, "vars": st.lists(el, min_size=3, max_size=3),
                                    "fq_coeffs": st.booleans() if not is_fq else st.just(False)}).map(
         lambda c: dict(base, **c))
